@@ -275,6 +275,9 @@ class Aggregation:
             self.finalize,
             self.fill_value,
             self.dtype,
+            # these change what the graph computes, so they must change its key names too
+            self.finalize_kwargs,
+            self.min_count,
         )
 
     def __repr__(self) -> str:
